@@ -14,18 +14,18 @@ PROPERTY_ID = "C07"
 RULE = ("kind ctor: class in {SO2, SE2, SO3, SE3, UnitQuaternion(3x3/4x4 input), Twist2, Twist3(matrix input)} x defect "
         "{none, entry noise 1e-12..1, reflection (negated / swapped column), scale, last-row corruption, non-algebra matrix, "
         "wrong shape} x container {bare, [a], (a,), [valid,bad], [bad,valid], [valid,bad,valid]}; oracle: distance d from "
-        "the group measured independently; d > 1e-5 => constructor raises and leaves no object, d <= 5e-15 => accepted, and "
+        "the group measured independently (a lower bound of it); d > 1.05e-6 => constructor raises and leaves no object, d <= 2e-15 => accepted, and "
         "any returned object holds only finite arrays of the class shape within 1e-6 of the group, never None. kind pred: "
         "membership / unit / zero / skew / identity predicates on members and perturbed members outside a 1e-6 band. "
         "Non-trivial: reflection, or magnitude in [1e-9,1e-3], or a mixed list.")
-ASSUMPTIONS = ["distance proxy: max orthogonality residual |R'R-I|, det sign, last-row error, algebra-form residual; between 5e-15 and 1e-5 either answer is accepted",
+ASSUMPTIONS = ["distance = lower bound from the orthogonality residual (|R'R-I|/2.5), determinant sign, exact last-row error, algebra-form residual; a value is required to be rejected above 1.05e-6 and accepted below 2e-15, in between either answer is accepted",
                "an invalid 4x4 array given to UnitQuaternion is also a legal N x 4 array of quaternions: there the oracle is 'raises or holds unit quaternions'"]
 
 CLASSES = ["SO2", "SE2", "SO3", "SE3", "UQ3", "UQ4", "Twist2", "Twist3"]
 DEFECTS = ["none", "noise", "reflect", "swap", "scale", "lastrow", "algebra", "shape"]
 CONTAINERS = ["bare", "list1", "tuple1", "valid_bad", "bad_valid", "valid_bad_valid"]
-REJECT = 1e-5
-ACCEPT = 5e-15
+REJECT = 1.05e-6      # the statement: every array whose distance from the group exceeds 1e-6 is rejected
+ACCEPT = 2e-15       # (distance lower bound, see group_distance) values produced by primitive constructors are accepted
 
 
 def s_ctor():
@@ -144,7 +144,9 @@ def group_distance(M, dim, se):
     if not np.all(np.isfinite(M)):
         return float("inf")
     R = M[:n, :n]
-    d = float(np.max(np.abs(R.T @ R - np.eye(n))))
+    # |R'R - I| is about twice the distance of R from the nearest rotation (exactly twice for a scaled
+    # rotation): r / 2.5 is a safe lower bound of the distance
+    d = float(np.max(np.abs(R.T @ R - np.eye(n)))) / 2.5
     if np.linalg.det(R) < 0:
         d = max(d, 1.0)
     if se:
@@ -159,7 +161,7 @@ def algebra_distance(M, dim):
     if M.shape != (n + 1, n + 1) or not np.all(np.isfinite(M)):
         return float("inf")
     W = M[:n, :n]
-    return float(max(np.max(np.abs(W + W.T)), np.max(np.abs(M[n, :]))))
+    return float(max(np.max(np.abs(W + W.T)) / 2.0, np.max(np.abs(M[n, :]))))
 
 
 def qdist(q):
@@ -191,7 +193,7 @@ def _setup(case):
             if not isinstance(a, np.ndarray) or a.shape != shape:
                 return "element %r is not an array of shape %s" % (a, shape)
             dd = group_distance(np.asarray(a, dtype=float), dim, se)
-            return None if dd <= 1e-6 else "element at distance %.3g from the group" % dd
+            return None if dd <= REJECT else "element at distance %.3g from the group" % dd
         return cls, good, bad, group_distance(bad, dim, se), judge, "matrix"
     if cn in ("UQ3", "UQ4"):
         se = cn == "UQ4"
@@ -351,7 +353,7 @@ def _pred(case):
         except Exception:  # noqa
             continue
         for a in obj.data:
-            okm = isinstance(a, np.ndarray) and a.shape == shape and group_distance(np.asarray(a, dtype=float), dim, se) <= 1e-6
+            okm = isinstance(a, np.ndarray) and a.shape == shape and group_distance(np.asarray(a, dtype=float), dim, se) <= REJECT
             if not c.true("related/" + nm, okm, "%s returned a %s holding %r" % (nm, type(obj).__name__, getattr(a, "shape", a))):
                 break
     # algebra predicates
